@@ -356,7 +356,16 @@ func (e *env) buildTx(st *simkit.Step) (tx *types.Tx, adversarial string) {
 		ids := []string{"BPCOUNT", "GASPRICE", "NAMEPRICE", "STAKINGMIN"}
 		val := [][]string{{"3", "5"}, {"60000000000", "70000000000"}, {"2000000000000000000", "3000000000000000000"}, {"20000000000000000000000", "30000000000000000000000"}}
 		i := int(st.V) % 4
-		return gov(types.AergoSystem, `{"Name":"v1voteDAO","Args":["`+ids[i]+`","`+val[i][int(st.V/4)%2]+`"]}`, new(big.Int)), ""
+		v := val[i][int(st.V/4)%2]
+		switch int(st.V/8) % 8 { // written form of the number (all are decimal numbers for the code)
+		case 1:
+			v = strings.Repeat("0", 39-len(v)) + v
+		case 2:
+			v = strings.Repeat("0", 40-len(v)) + v
+		case 3:
+			v = "+" + v
+		}
+		return gov(types.AergoSystem, `{"Name":"v1voteDAO","Args":["`+ids[i]+`","`+v+`"]}`, new(big.Int)), ""
 	case kNameCreate:
 		name := fmt.Sprintf("name%08d", st.V%100000000)
 		e.names = append(e.names, name)
